@@ -240,12 +240,13 @@ def atDistStep (len : Nat → Rat) (d : Rat) (e : Nat × Rat) : Option (Nat × R
     if 1 < (d - e.2) / len e.1 then none             -- `frac_along > 1.0`: not in this segment
     else some (e.1, (d - e.2) / len e.1)
 
-/-- `Cell.get_segments_at_distance` (Dijkstra with `cutoff=distance` keeps the nodes at distance `≤ cutoff`) -/
+/-- `Cell.get_segments_at_distance` (Dijkstra with `cutoff=distance` keeps the source and the nodes at distance
+    `≤ cutoff`; with non-negative edge weights a node beyond the cut-off has no descendant within it) -/
 def segmentsAtDistanceG (g : Graph) (len : Nat → Rat) (fuel : Nat) (d : Rat) (src : Nat) :
     Option (List (Nat × Rat)) :=
   match allDistancesG g fuel src with
   | none => none
-  | some l => some ((l.filter (fun e => e.2 ≤ d)).filterMap (atDistStep len d))
+  | some l => some ((l.filter (fun e => e.1 == src || decide (e.2 ≤ d))).filterMap (atDistStep len d))
 
 def outDeg (g : Graph) (n : Nat) : Nat := (g.edges.filter (fun e => e.src == n)).length
 def inDeg (g : Graph) (n : Nat) : Nat := (g.edges.filter (fun e => e.dst == n)).length
